@@ -669,3 +669,51 @@ def cache_coherence(ctx):
                   "later unlock writes back a stale count/version (resurrected elements), and the iterator may walk freed extension items", fn.where(unlocked_store) if unlocked_store else fn.where(), fn=fn)
         ctx.check(bad is None and n_checked >= 3, rid, V + "erase(iterator&)#cache==stored", "%d paths: cached state equals the last stored state with the lock cleared" % n_checked,
                   bad[1] if bad else "fewer than three removal paths store a state (%d)" % n_checked, fn.where(bad[0]) if bad and bad[0] is not None else fn.where(), fn=fn)
+
+
+def extension_only_when_full(ctx):
+    rid = "VHM.extension-only-when-full"
+    ctx.rule(rid, "do_grow / do_get_or_emplace: the count that is tested against bucket_item_count to decide between 'store into the bucket's array' and "
+                  "'allocate an extension item' is the very count that indexes the array store on the other branch (the destination bucket's item "
+                  "count): do_get_or_emplace inserts into a non-full array without scanning the extension list, so an extension item next to a non-full "
+                  "array makes a present key insertable a second time")
+    from .progress import _vname
+    for pat in (V + "do_grow", V + "do_get_or_emplace"):
+        for fn in flow._shapes(ctx, pat):
+            allocs = [e for b, i, e, n_ in fn.events() if n_["k"] == "call" and n_.get("callee", "").endswith("::allocate_extension_item")]
+            if not allocs:
+                if pat.endswith("do_grow"):
+                    ctx.broken.append("%s: no allocate_extension_item call" % pat)
+                continue
+            # comparisons with the constant bucket_item_count
+            tests = []
+            for b, blk in fn.blocks.items():
+                if "cond" not in blk or b not in fn.live_blocks():
+                    continue
+                for x in fn.subtree(blk["cond"]):
+                    xn = fn.nodes[x]
+                    if xn["k"] == "bin" and xn.get("op") in ("<", ">=", "==", "!=", ">", "<="):
+                        kk = fn.kids(x)
+                        if len(kk) == 2:
+                            for a_, o_ in ((kk[0], kk[1]), (kk[1], kk[0])):
+                                if fn.nodes[o_].get("name", "").endswith("bucket_item_count") and fn.nodes[a_]["k"] == "ref":
+                                    tests.append((b, x, a_))
+            idx_vars = set()
+            # variables that index a bucket's key array (written directly, or handed to store_item by reference)
+            for o, on in enumerate(fn.nodes):
+                if on["k"] == "index" and len(fn.kids(o)) == 2 and fn.nodes[fn.kids(o)[1]]["k"] == "ref":
+                    base = fn.nodes[fn.kids(o)[0]]
+                    if base["k"] == "member" and base.get("leaf") == "key":
+                        idx_vars.add(_vname(fn.nodes[fn.kids(o)[1]]))
+            for al in allocs:
+                # the test that governs this allocation: the nearest bucket_item_count comparison the allocation is control dependent on
+                gov = [(b, x, a_) for (b, x, a_) in tests if fn.event_reaches(x, al) or b in fn.dominators().get(fn.pos()[al][0], ())]
+                if not gov:
+                    ctx.bad(rid, pat + "#extension|array-full", "an extension item is allocated without a test of the bucket's item count against bucket_item_count",
+                            fn.where(al), fn=fn)
+                    continue
+                okv = any(_vname(fn.nodes[a_]) in idx_vars for (b, x, a_) in gov)
+                ctx.check(okv, rid, pat + "#extension|array-full@%d" % allocs.index(al), "the tested count is the index of the array store",
+                          "the count tested against bucket_item_count (%s) is not the count that indexes the array store of the other branch (%s): items are put into "
+                          "extension items although the destination array has room (or vice versa)" % (
+                              ", ".join(sorted({fn.expr(a_) for (b, x, a_) in gov})), ", ".join(sorted(idx_vars))), fn.where(al), fn=fn)
